@@ -995,7 +995,7 @@ package gkvlite
 //@   loop 0 invariant true
 
 //@ func (*Store).Snapshot
-//@   props C04 C05 C09 C10
+//@   props C04 C05 C09 C10 C15
 //@   from: C04 statement: a snapshot reads exactly the contents at the moment of Snapshot(): it holds the same version objects, pinned; it is read-only; nothing of the original changes
 //@   requires s != nil && locks == emptyLocks()
 //@   requires [C07] open-store: s.coll != nil && deref(s.coll) != nil
@@ -1004,13 +1004,13 @@ package gkvlite
 //@   ensures [C04] read-only-copy: snapshot != nil && fresh(snapshot) && snapshot.readOnly && snapshot.file == s.file && snapshot.size == s.size && snapshot.coll != nil && fresh(deref(snapshot.coll))
 //@   ensures [C04] same-names: forall k :: has(deref(snapshot.coll), k) == has(deref(s.coll), k)
 //@   ensures [C04] same-version-objects: forall k :: has(deref(s.coll), k) ==> deref(snapshot.coll)[k] != nil && deref(snapshot.coll)[k].root == deref(s.coll)[k].root && deref(snapshot.coll)[k].rootLock == deref(s.coll)[k].rootLock
-//@   ensures [C04] every-version-pinned: (forall k :: has(deref(s.coll), k) ==> rootNodeLoc.refs[deref(s.coll)[k].root] >= old(rootNodeLoc.refs)[deref(s.coll)[k].root] + 1) && (forall r {rootNodeLoc.refs[r]} :: rootNodeLoc.refs[r] >= old(rootNodeLoc.refs[r]))
+//@   ensures [C04,C10,C15] every-version-pinned: (forall k :: has(deref(s.coll), k) ==> rootNodeLoc.refs[deref(s.coll)[k].root] >= old(rootNodeLoc.refs)[deref(s.coll)[k].root] + 1) && (forall r {rootNodeLoc.refs[r]} :: rootNodeLoc.refs[r] >= old(rootNodeLoc.refs[r]))
 //@   ensures [C04] original-handles-untouched: forall c: *Collection :: !fresh(c) ==> c.root == old(c.root) && c.store == old(c.store) && c.compare == old(c.compare)
 //@   ensures [C04] original-map-untouched: s.coll == old(s.coll) && map.ptr[deref(s.coll)] == old(map.ptr[deref(s.coll)]) && map.dom[deref(s.coll)] == old(map.dom[deref(s.coll)])
 //@   loop 0 modifies rootNodeLoc.refs, map.ptr, map.dom, new Collection.name, new Collection.store, new Collection.compare, new Collection.rootLock, new Collection.root, new Collection.AppData
 //@   loop 0 invariant -1 <= rangeindex
 //@   loop 0 invariant res != nil && fresh(res) && res.readOnly && res.file == s.file && res.size == s.size && res.coll != nil && deref(res.coll) == coll && fresh(coll) && coll != deref(s.coll)
-//@   loop 0 invariant [C04] pinned-so-far: (forall r {rootNodeLoc.refs[r]} :: rootNodeLoc.refs[r] >= old(rootNodeLoc.refs[r])) && (forall j in rangeslice :: j <= rangeindex ==> rootNodeLoc.refs[deref(s.coll)[rangeslice[j]].root] >= old(rootNodeLoc.refs)[deref(s.coll)[rangeslice[j]].root] + 1)
+//@   loop 0 invariant [C04,C10,C15] pinned-so-far: (forall r {rootNodeLoc.refs[r]} :: rootNodeLoc.refs[r] >= old(rootNodeLoc.refs[r])) && (forall j in rangeslice :: j <= rangeindex ==> rootNodeLoc.refs[deref(s.coll)[rangeslice[j]].root] >= old(rootNodeLoc.refs)[deref(s.coll)[rangeslice[j]].root] + 1)
 //@   loop 0 invariant [C04] names-to-do: (forall i in rangeslice :: has(deref(s.coll), rangeslice[i])) && (forall k :: has(deref(s.coll), k) ==> exists i in rangeslice :: rangeslice[i] == k)
 //@   loop 0 invariant [C04] same-names-so-far: forall k :: has(coll, k) == has(deref(s.coll), k)
 //@   loop 0 invariant [C04] original-map-untouched: map.ptr[deref(s.coll)] == old(map.ptr[deref(s.coll)]) && map.dom[deref(s.coll)] == old(map.dom[deref(s.coll)])
